@@ -76,3 +76,32 @@ Theorem C02_lex_emit_core_full_refuted : ~ lex_emit_core_full.
 Proof. exact lex_emit_core_full_refuted. Qed.
 Theorem C02_text_roundtrip_nonvacuous : core_doc ex_doc2 = true /\ lex_safe_doc ex_doc2 = true.
 Proof. exact (conj ex_doc2_core ex_doc2_lex_safe). Qed.
+
+From OV Require Import Rt.TokRound2 Rt.TokRound2Ex.
+(* WIDER FRAGMENT (core2), parser half at every depth and every list length: leading / trailing / document comments, lists of
+   scalars in the inline and the multi-line layout, section markers with annotations nested with blocks, a META block
+   with scalar and list fields.  `ml` (which lists are multi-line) and `idnum` (which section ids are NUMBER tokens) are
+   arbitrary.  Each excluded layout has a refutation witness in Rt/TokRound2Ex.v (comment dedent, empty body followed
+   by a sibling, first key META, ...). *)
+Theorem C02_core2_readback_all_depths :
+  forall numcanon holo_ok strict sp alpha ml idnum d,
+    core2_doc d = true -> nums_ok2_l numcanon idnum (dsections d) -> Forall (field_num_ok numcanon) (dmeta d) ->
+    forall st0 ts tail, tail <> [] -> pbdepth st0 = 0%N -> Forall2 tmatch ts (doc2_sh ml idnum d) -> ptoks st0 = ts ++ tail ->
+    exists st', parse_document numcanon holo_ok strict sp alpha st0 = POk d st' /\ wext2 st0 st'.
+Proof. exact parse_core2_doc. Qed.
+
+(* the full reader on ANY text whose model-lexer tokens have the shape of a core2 document returns that document, with the
+   lexer's repairs and only advisory warnings: reduces the text round trip to an executable shape check (run by the
+   harness on every generated core2 document: extracted core2_shape_check) *)
+Theorem C02_text_roundtrip_core2_checked :
+  forall cls numcanon holo_ok strict ml idnum d text toks reps,
+    core2_doc d = true -> nums_ok2_l numcanon idnum (dsections d) -> Forall (field_num_ok numcanon) (dmeta d) ->
+    strip_frontmatter (u_space cls) (lines_of text) = (lines_of text, None) ->
+    tokenize cls false (lines_of text) = LexOk toks reps ->
+    all2 tmatchb toks (doc2_sh ml idnum d ++ [(NEWLINE, None); (EOF, None)]) = true ->
+    exists warns, parse_model cls numcanon holo_ok strict (lines_of text) = PRDoc d reps warns /\ Forall advisory warns.
+Proof. exact text_roundtrip_core2_checked. Qed.
+
+Definition C02_core2_full : Prop := parse_core2_full.
+Theorem C02_core2_full_refuted : ~ parse_core2_full.
+Proof. exact parse_core2_full_refuted. Qed.
